@@ -38,6 +38,7 @@ Mutants tried by the auditor (a-c19), all caught with a concrete replay unless n
 """
 import glob as globmod
 import importlib.util
+import inspect
 import itertools
 import json
 import os
@@ -50,6 +51,9 @@ import types
 
 from vlib import common
 from harness import c19_system
+from harness import c19_proc
+
+HARNESS_DIR = os.path.dirname(os.path.abspath(__file__))
 
 RULE = ("retrospective and prospective runs of the real script over a fake pipeline; cases = (mode, batch size, "
         "plates, chains/chunks, publication order variant, marker-first flag, global interruption points); quick: "
@@ -336,6 +340,7 @@ class Gate:
         self.fired = False
         self.count_at_fire = 0
         self.on_remove = on_remove
+        self.unexpected = lambda msg: None
 
     def tick(self):
         if not self.active:
@@ -368,26 +373,36 @@ class Patched:
         gate = self.gate
         r_mkdir, r_unlink, r_rmdir = self.real
 
-        def mkdir(path, *a, **kw):
-            if gate.active and not os.path.lexists(fd_path(path, kw.get("dir_fd"))):
-                gate.tick()
-            return r_mkdir(path, *a, **kw)
+        def target(a, kw):
+            """full path of the first argument, whatever the call form; None when the harness cannot tell"""
+            try:
+                return fd_path(a[0] if a else kw["path"], kw.get("dir_fd"))
+            except Exception as e:  # noqa
+                gate.unexpected("os-level call in a form the harness cannot read: %r %r (%s)" % (a, kw, e))
+                return None
 
-        def unlink(path, *a, **kw):
+        def mkdir(*a, **kw):
             if gate.active:
-                full = fd_path(path, kw.get("dir_fd"))
-                if os.path.lexists(full):
+                full = target(a, kw)
+                if full is not None and not os.path.lexists(full):
+                    gate.tick()
+            return r_mkdir(*a, **kw)
+
+        def unlink(*a, **kw):
+            if gate.active:
+                full = target(a, kw)
+                if full is not None and os.path.lexists(full):
                     gate.tick()
                     gate.on_remove(full)
-            return r_unlink(path, *a, **kw)
+            return r_unlink(*a, **kw)
 
-        def rmdir(path, *a, **kw):
+        def rmdir(*a, **kw):
             if gate.active:
-                full = fd_path(path, kw.get("dir_fd"))
-                if os.path.isdir(full) and not os.listdir(full):
+                full = target(a, kw)
+                if full is not None and os.path.isdir(full) and not os.listdir(full):
                     gate.tick()
                     gate.on_remove(full)
-            return r_rmdir(path, *a, **kw)
+            return r_rmdir(*a, **kw)
 
         os.mkdir, os.unlink, os.rmdir = mkdir, unlink, rmdir
         # shutil tests `os.unlink in os.supports_dir_fd` etc. by identity: keep those sets consistent
@@ -452,6 +467,8 @@ class Run:
             f.write("input\n")
         self.gate = Gate(self.on_remove)
         self.gate.once = signal
+        self.unexpected = []      # call forms / exceptions of the harness's own wrappers: the case becomes a broken tie, not a finding
+        self.gate.unexpected = self.unexpected.append
         self.events = []          # text events, same alphabet as the model's
         self.sched = []           # derived per-invocation budgets ("n" or int) for the model
         self.launches = []        # [step, launch text, completed?, launch dict]
@@ -602,14 +619,23 @@ class Run:
         mod = load_script(fresh=self.restart or self.verbose)
         self._enable_log(mod)
         cfg = self.cfg
-        saved = mod.subprocess
-        mod.subprocess = types.SimpleNamespace(check_call=self.check_call)
+        saved = None          # nothing inside the script module is replaced: the launcher is caught at subprocess.Popen
         extra = list(EXTRA_ARGS)
 
         def step(output_dir, input_screen, extra_args, batch_size):
             if not self.main:
                 fn = mod.run_next_retrospective_step if cfg["mode"] == "r" else mod.run_next_prospective_step
-                return fn(output_dir=output_dir, input_screen=input_screen, extra_args=extra_args, batch_size=batch_size)
+                kwargs = dict(output_dir=output_dir, input_screen=input_screen, extra_args=extra_args, batch_size=batch_size)
+                try:
+                    inspect.signature(fn).bind(**kwargs)
+                except TypeError:
+                    try:        # parameters renamed: the order of main()'s call is all the harness knows
+                        inspect.signature(fn).bind(output_dir, input_screen, extra_args, batch_size)
+                    except TypeError as e:
+                        self.unexpected.append("step function cannot be called the way main() calls it: %s" % e)
+                        raise Runaway()
+                    return fn(output_dir, input_screen, extra_args, batch_size)
+                return fn(**kwargs)
             # a whole process run: `python batchie.py --mode .. --outdir .. --screen .. [--batch-size B] <extra args>`
             argv = ["batchie.py", "--mode", "retrospective" if cfg["mode"] == "r" else "prospective", "--outdir", output_dir,
                     "--screen", input_screen]
@@ -629,7 +655,7 @@ class Run:
         status = "no-termination"
         g = self.gate
         try:
-            with Patched(g):
+            with Patched(g), c19_proc.popen_patch(self.check_call, lambda: g.active, (FakeFailure,), self.unexpected.append):
                 for _ in range(max_invocations):
                     g.count = 0
                     g.fired = False
@@ -660,17 +686,17 @@ class Run:
                     except FakeFailure:
                         outcome = ("failed", "PipelineFailure")
                     except Exception as e:  # noqa
-                        outcome = ("failed", type(e).__name__)
+                        if c19_proc.in_harness(e, HARNESS_DIR):
+                            # one of the harness's own wrappers / parsers failed: a broken tie, never a finding
+                            self.unexpected.append("%s in harness code: %s" % (type(e).__name__, str(e)[:200]))
+                        outcome = ("failed", "PipelineFailure" if type(e).__name__ == "CalledProcessError" else type(e).__name__)
                     finally:
                         g.active = False
                     if extra != EXTRA_ARGS and self.extra_bad is None:
                         self.extra_bad = list(extra)
                     if self.restart and outcome[0] not in ("again", "halt"):
-                        mod.subprocess = saved
                         mod = load_script(fresh=True)
                         self._enable_log(mod)
-                        saved = mod.subprocess
-                        mod.subprocess = types.SimpleNamespace(check_call=self.check_call)
                     self.segments[-1] += g.count
                     if outcome[0] == "crash" and self.modelled_done:
                         # interrupted among the invisible late outputs: for the model this call was not interrupted
@@ -720,7 +746,7 @@ class Run:
                     status = "failed:" + outcome[1]
                     break
         finally:
-            mod.subprocess = saved
+            pass
         self.unused_crashes = len(pending) + (1 if budget is not None else 0)
         self.status = status
         self.tree = show_tree(self.outdir)
@@ -1083,8 +1109,11 @@ def explore(cfg, pre, pairs, workdir):
             classes.add("entry-point.script-main")
         if not main:
             classes.add("state-reuse.long-lived-module")     # one module object serves every step-function case of a check run
+        unexpected = list(run.unexpected) + list(ref.unexpected)
+        if unexpected:
+            findings = []       # the harness's own wrappers could not follow the script: a broken tie, not a finding (item 21)
         results.append({"case": case, "line": None if main else run.driver_line(), "observed": run.observed(), "findings": findings,
-                        "classes": sorted(classes),
+                        "classes": sorted(classes), "unexpected": unexpected[:3],
                         "sig": [signature(run, f) for f in findings], "nontrivial": run.hit_after_outdir,
                         "segments": run.segments, "window": run.in_window, "late_window": run.late_window,
                         "late_lost": ref.late_published - run.late_published if run.status == "ok" else 0})
@@ -1154,6 +1183,9 @@ def run(ctx, res):
                 res.count("batch.%d" % cfg["B"])
                 for c in r["classes"]:
                     res.count("class." + c)
+                if r["unexpected"]:
+                    res.count("wrapper.unexpected-call")
+                    res.disagree("harness wrapper: %s" % r["unexpected"][0][:160], r["case"], r["unexpected"], "-")
                 res.count("class.orderings.publication-order-%d" % (cfg["variant"] % 3))
                 res.count("class.input-mutation.extra-args")
                 if r["window"]:
@@ -1239,6 +1271,8 @@ def replay(ctx, case, res):
                          signature="C19:empty-iteration-directory")
             return
         run, ref, findings = run_case(case, base)      # (the reference run before it has already used the module object)
+        if run.unexpected or ref.unexpected:
+            findings = []
         for f in findings:
             res.fail("%s [%s]" % (f[1], describe(case["cfg"])), case, f[2], f[3], signature=signature(run, f))
     finally:
